@@ -80,6 +80,10 @@ def side : Mpsc.Ev → Option (Nat × Bool)
   | .xchgTail _ _ _ => none
   | .callPop _ => none
   | .retPop _ _ => none
+  -- mpsc_relaxed_fifo.h has no peek
+  | .callPeek _ => none
+  | .rdDataPeek _ _ _ => none
+  | .retPeek _ _ => none
 
 /-- node `n` is owned by the client w.r.t. sub-queue state `q` -/
 def freeIn (q : Mpsc.St) (n : Nat) : Bool :=
